@@ -64,6 +64,10 @@ ForestReqs ==
            v \in {13, 14, 36, 37}, u \in P, par \in {"", "null"} \cup P}
   \cup {[op |-> "rp_update", v |-> 39, u |-> u, name |-> n, parent |-> ""] : u \in P, n \in P}
   \cup {[op |-> "rp_delete", v |-> 39, u |-> u] : u \in P}
+  \* the parent's uuid in another spelling: the service may take either reading (API!Readings)
+  \cup {[op |-> "rp_update", v |-> v, u |-> u, name |-> u, parent |-> par, pspell |-> "upper"] :
+           v \in {14, 37}, u \in P, par \in P}
+  \cup {[op |-> "rp_create", v |-> 14, u |-> u, name |-> u, parent |-> par, pspell |-> "upper"] : u \in P, par \in P}
 
 Pairs(S) == {x \in S \X S : x[1] # x[2]}
 
@@ -182,7 +186,7 @@ InitWithInventories ==
 
 Do(r) == LET a == Apply(s, r) IN s' = a.s /\ last' = [req |-> r, resp |-> a.resp]
 
-Next == \E r \in Requests : Do(r)
+Next == \E r \in Requests : \E x \in Readings(r) : Do(x)
 
 Spec == Init /\ [][Next]_vars
 
@@ -201,7 +205,7 @@ BuildReqs ==
 \* every group is equally likely whatever the size of its alphabet
 SimGroups == {"forest", "inv", "put", "post", "del", "reshape", "names", "assoc", "reads"}
 SimReqsOf(g) ==
-  CASE g = "forest" -> ForestReqs
+  CASE g = "forest" -> {r \in ForestReqs : "pspell" \notin DOMAIN r}   \* replay needs one reading
     [] g = "inv" -> InvReqs
     [] g = "put" -> {r \in AllocReqs : r.op = "alloc_put"}
     [] g = "post" -> {r \in AllocReqs : r.op = "alloc_post"}
